@@ -264,6 +264,6 @@ theorem decView_reset_eq_fresh {s : Dec} (h : DecInv s) :
       decView (decFresh s.fs s.channels s.arch s.silkDecOffset s.celtDecOffset s.decodeGain s.complexity
                  s.celtComplexity s.celtDisableInv) := by
   obtain ⟨h1, h2⟩ := h
-  simp [decView, decReset, decFresh, decWithSettings, decInit, h1, h2]
+  simp [decView, decReset, decFresh, decWithSettings, decInit, MODE_SILK_ONLY, MODE_HYBRID, h1, h2]
 
 end Opus.ResetState
